@@ -103,7 +103,7 @@ func NewExec(ld *Loaded) *Exec {
 		c: NewCtx(), prog: ld.Prog, ld: ld,
 		globals: map[*ssa.Global]*Object{}, stubs: map[string]*FuncV{},
 		stubbed: map[string]int{}, modeled: map[string]int{}, encoded: map[string]int{},
-		unwind: 4, nondet: map[string]int{}, ghost: map[string]Value{}, maxInstr: 50_000_000,
+		unwind: 70, nondet: map[string]int{}, ghost: map[string]Value{}, maxInstr: 50_000_000,
 		opts: map[string]string{},
 	}
 }
